@@ -193,7 +193,7 @@ def rule_pool_guard(ctx):
     R = "C12.5"
     ctx.rule(R, "pool guard (tables): insert rejects an existing key and, for a key outside `allowed`, rejects at extra_count >= extra_limit and counts otherwise; remove is symmetric; Pool fields are written only inside those closures")
     ins = ctx.fn(POOLW + "::insert")
-    kids = [g for g in ctx.F.fns if root_fn(g) is ins and g.kind == "closure"]
+    kids = common.family(ctx, ins, ("closure",))
     clo = [g for g in kids if any(c["q"].endswith("HashMap::insert") for c in ctx.T(g).calls())]
     ctx.floor(R, "insert closure", len(clo), 1)
     if clo:
@@ -224,22 +224,22 @@ def rule_pool_guard(ctx):
                 bad.append(((ex, al, c), sorted(reach)))
         ctx.ob(R, "insert table", not bad, "12 valuations: insert iff not present and (allowed or extra_count < extra_limit); counted iff not allowed" if not bad else "pool insert deviates: %s" % bad[:3], g.loc())
     rem = ctx.fn(POOLW + "::remove")
-    kids = [g for g in ctx.F.fns if root_fn(g) is rem and g.kind == "closure"]
+    kids = common.family(ctx, rem, ("closure",))
     clo = [g for g in kids if any(c["q"].endswith("HashMap::remove") for c in ctx.T(g).calls())]
     ctx.floor(R, "remove closure", len(clo), 1)
     if clo:
         g = clo[0]
         T = ctx.T(g)
 
-        def a_none(t):
-            return t[0] == "call" and t[1] == "std::option::Option::is_none" and any(x[0] == "call" and x[1].endswith("HashMap::remove") for x in subterms(t))
+        def a_removed(t):
+            return t[0] == "call" and t[1].endswith("HashMap::remove") and chain(t[2][0])[1][-1:] == ["current"]
 
         def a_allowed(t):
             return t[0] == "call" and t[1].endswith("HashSet::contains") and chain(t[2][0])[1][-1:] == ["allowed"]
-        W = Walker(ctx, g, [Atom("absent", "bool", a_none, [True, False]), Atom("allowed", "bool", a_allowed, [True, False])])
+        W = Walker(ctx, g, [Atom("removed", "opt", a_removed, ["None", "Some"]), Atom("allowed", "bool", a_allowed, [True, False])])
         dec = [bb for bb in range(len(g.blocks)) for names, k, nd in Q.stmt_field_writes(g, bb, POOL) if "extra_count" in names]
         names, tab = W.table({"uncount": dec})
-        ok = all((("uncount" in v) == (k[0] is False and k[1] is False)) for k, v in tab.items()) and bool(dec)
+        ok = all((("uncount" in v) == (k[0] == "Some" and k[1] is False)) for k, v in tab.items()) and bool(dec)
         ctx.ob(R, "remove table", ok, "the extra count is decremented exactly for a present key outside `allowed`" if ok else "pool remove deviates: %s" % {k: sorted(v) for k, v in tab.items()}, g.loc())
     writers = set()
     for f in ctx.F.fns:
